@@ -3,6 +3,7 @@ package props
 import (
 	"errors"
 	"fmt"
+	"math"
 	"math/rand/v2"
 
 	"github.com/ucan-wg/go-ucan/pkg/args"
@@ -31,7 +32,7 @@ func init() {
 		MinEvals:        floor(3200, 110000),
 		MinDistinct:     floor(1500, 40000),
 		RequiredCells: func(string) []string {
-			cells := []string{"purity/chain-verdicts/history", "purity/chain-verdicts/concurrent", "purity/chain-verdicts/concurrent-focused", "chain-purity/ExecutionAllowed/same-proofs-arguments/model=deny", "chain-purity/ExecutionAllowed/shared-lower-links/model=deny", "deep-nesting", "twins", "twins/true-then-false", "twins/false-then-true", "twins/same-policy", "twins/different-links", "scale", "scale/long-chain", "scale/many-statements", "scale/history", "heterogeneous", "heterogeneous/some-statement-false", "hook/returns-satisfying", "hook/returns-violating", "hook/returns-empty", "hook/returns-subset", "hook/error", "hook/sees-token-args", "mono/add-statement", "mono/add-link", "pattern/only-root", "pattern/only-leaf", "all-true"}
+			cells := []string{"purity/chain-verdicts/history", "purity/chain-verdicts/concurrent", "purity/chain-verdicts/concurrent-focused", "chain-purity/ExecutionAllowed/same-proofs-arguments/model=deny", "chain-purity/ExecutionAllowed/shared-lower-links/model=deny", "non-finite", "deep-nesting", "twins", "twins/true-then-false", "twins/false-then-true", "twins/same-policy", "twins/different-links", "scale", "scale/long-chain", "scale/many-statements", "scale/history", "heterogeneous", "heterogeneous/some-statement-false", "hook/returns-satisfying", "hook/returns-violating", "hook/returns-empty", "hook/returns-subset", "hook/error", "hook/sees-token-args", "mono/add-statement", "mono/add-link", "pattern/only-root", "pattern/only-leaf", "all-true"}
 			for _, lp := range []string{"first", "middle", "last"} {
 				for _, sp := range []string{"first", "middle", "last", "only"} {
 					cells = append(cells, "false/link="+lp+"/stmt="+sp)
@@ -149,6 +150,7 @@ func runC03(w *mon.W) {
 		return
 	}
 	c03Heterogeneous(w)
+	c03NonFinite(w)
 	c03Scale(w)
 	c03Twins(w)
 	c03Deep(w)
@@ -812,6 +814,78 @@ func c03Deep(w *mon.W) {
 			}
 			if e != nil && tri == ref.True {
 				w.Count("conforming_but_denied(judged_by_C05)", 1)
+			}
+		}
+	}
+}
+
+// c03NonFinite: arguments that are not finite numbers. No ordering holds with NaN (and NaN
+// equals nothing), so a chain whose policy orders or equates an argument that is NaN denies -
+// wherever the statement sits, whether the NaN comes from the token or from the hook.
+func c03NonFinite(w *mon.W) {
+	r := w.Rng
+	sel := ref.Sel{{Kind: ref.SField, Name: "amount"}}
+	idx := 0
+	for _, kind := range []string{"<", "<=", ">", ">=", "=="} {
+		for _, lit := range []ref.V{ref.Float(1000), ref.Float(-1000), ref.Float(0), ref.Float(math.NaN())} {
+			if lit.K == ref.KFloat && math.IsNaN(lit.F) && kind != "==" {
+				continue
+			}
+			for _, shape := range []string{"plain", "and", "or", "any"} {
+				for _, viaHook := range []bool{false, true} {
+					idx++
+					if !w.Mine(idx) {
+						continue
+					}
+					st := ref.Stmt{Kind: kind, Sel: sel, Val: lit}
+					switch shape {
+					case "and":
+						st = ref.Stmt{Kind: "and", Subs: []ref.Stmt{st, {Kind: "==", Sel: ref.Sel{{Kind: ref.SField, Name: "unit"}}, Val: ref.Str("eur")}}}
+					case "or":
+						st = ref.Stmt{Kind: "or", Subs: []ref.Stmt{st, {Kind: "==", Sel: ref.Sel{{Kind: ref.SField, Name: "unit"}}, Val: ref.Str("usd")}}}
+					case "any":
+						st = ref.Stmt{Kind: "any", Sel: ref.Sel{{Kind: ref.SField, Name: "amounts"}}, Subs: []ref.Stmt{{Kind: kind, Sel: ref.Sel{}, Val: lit}}}
+					}
+					n := 1 + r.IntN(3)
+					s := chain.Conformant(r, n, 5)
+					k := r.IntN(n)
+					s.Links[k].Pol = ref.Policy{st}
+					s.Links[k].PolIPLD = idx%2 == 0
+					nan := ref.Map(ref.E("amount", ref.Float(math.NaN())), ref.E("unit", ref.Str("eur")), ref.E("amounts", ref.List(ref.Float(math.NaN()), ref.Float(math.NaN()))))
+					fine := ref.Map(ref.E("amount", ref.Float(5)), ref.E("unit", ref.Str("eur")), ref.E("amounts", ref.List(ref.Float(5))))
+					s.Args = nan
+					if viaHook {
+						s.Args = fine
+					}
+					if t, _ := s.PoliciesOK(nan); t != ref.False {
+						continue
+					}
+					b, err := s.Build(r)
+					if err != nil {
+						w.Inconclusive("C03 non-finite scenario: " + err.Error())
+						continue
+					}
+					var e error
+					if viaHook {
+						ha, herr := chain.ArgsFromV(nan, nil)
+						if herr != nil {
+							continue
+						}
+						e = b.Inv.ExecutionAllowedWithArgsHook(b.Loader, func(args.ReadOnly) (*args.Args, error) { return ha, nil })
+					} else {
+						e = b.Inv.ExecutionAllowed(b.Loader)
+					}
+					w.Eval(1)
+					w.Cover("non-finite")
+					w.Distinct("non-finite", kind, lit.String(), shape, viaHook)
+					if e == nil {
+						d := s.Describe()
+						d["statement"] = st.String()
+						d["arguments_checked"] = nan.String()
+						d["via_hook"] = viaHook
+						w.Violate("unsound/non-finite-argument/"+kind+"/"+shape, fmt.Sprintf("ExecutionAllowed = nil although the arguments checked hold NaN where %s must hold (no ordering and no equality holds with NaN)", st), d)
+					}
+				}
 			}
 		}
 	}
